@@ -3,6 +3,7 @@
 // For the full copyright and license information, please view the LICENSE
 // file that was distributed with this source code.
 
+#[cfg(windows)]
 use chrono::DateTime;
 use std::{
     fs::File,
@@ -182,8 +183,11 @@ impl Ls {
         let size = metadata.size();
         let last_modified = {
             let system_time = metadata.modified().unwrap();
-            let now_utc: DateTime<chrono::Utc> = system_time.into();
-            now_utc.format("%b %e %H:%M")
+            // A time chrono cannot represent is shown as seconds since the epoch.
+            match super::time::to_utc_datetime(system_time) {
+                Some(utc) => utc.format("%b %e %H:%M").to_string(),
+                None => metadata.mtime().to_string(),
+            }
         };
         let path = file_info.path().to_string_lossy();
 
